@@ -1028,3 +1028,77 @@ def plume_head(P, rep, rule="EXPR.plumehead"):
     else:
         rep.violation(rule, "plume head relative distance is %s" % str(val)[:120], F.nloc(H), F.qn, str(val)[:200], "expected the half-ellipsoid equation", key=rule + "|formula",
                       witness="point in the plume head off the axis")
+
+
+def side_of_line_twins(P, rep, rule="EXPR.side-of-line"):
+    """two points are on the same side of a line: both tests are the same function of the tested point and vanish on the line"""
+    rep.rule(rule, "calculate_ridge_distance_and_spreading decides on which side of a transform fault the query lies by comparing two tests "
+                   "`E(p) < 0`: both are the same expression in the tested point p (the ridge's reference point / the query), E is affine in p "
+                   "and vanishes at both end points of the transform fault (E = (b - a) x (p - a)); otherwise the chosen ridge segment depends "
+                   "on the orientation of the model")
+    F = P.func("WorldBuilder::Utilities::calculate_ridge_distance_and_spreading")
+    decls = {x["r"]: x for x in F.walk() if x.get("k") == "VarDecl" and x.get("c")}
+    n = 0
+    for c in F.walk():
+        if not (c.get("k") == "BinaryOperator" and c.get("op") in ("==", "!=")):
+            continue
+        l, r = sc(c["c"][0]), sc(c["c"][1])
+        if not (l.get("k") == "DeclRefExpr" and r.get("k") == "DeclRefExpr" and l.get("r") in decls and r.get("r") in decls):
+            continue
+        tests = []
+        for side in (l, r):
+            ini = sc(decls[side["r"]]["c"][0])
+            if ini.get("k") == "BinaryOperator" and ini.get("op") in ("<", ">", "<=", ">=") and sc(ini["c"][1]).get("k") in ("IntegerLiteral", "FloatingLiteral") \
+                    and float(sc(ini["c"][1])["v"]) == 0.0:
+                tests.append((ini["op"], ini["c"][0], side))
+        if len(tests) != 2:
+            continue
+        n += 1
+        names = {}
+
+        def hook(nn):
+            s = astq.subscript(nn)
+            if s and sc(s[0]).get("k") == "DeclRefExpr" and sc(s[1]).get("k") == "IntegerLiteral" and "Point<2>" in (sc(s[0]).get("t") or P.d(sc(s[0])["r"]).get("t") or ""):
+                nm = sc(s[0]).get("n")
+                q = sp.Symbol("%s_%d" % (nm, sc(s[1])["v"]), real=True)
+                names.setdefault(nm, {})[sc(s[1])["v"]] = q
+                return q
+            return None
+        try:
+            E = [sp.expand(norm.Sym(P, F, inline_locals=False, hook=hook)(t[1])) for t in tests]
+        except Exception as e:
+            rep.unknown(rule, "side tests not evaluated (%s)" % e)
+            continue
+        pts = [{str(q).rsplit("_", 1)[0] for q in e_.free_symbols} for e_ in E]
+        shared = pts[0] & pts[1]
+        own = [pts[0] - shared, pts[1] - shared]
+        inst = "`%s == %s`" % (l.get("n"), r.get("n"))
+        if len(shared) != 2 or len(own[0]) != 1 or len(own[1]) != 1 or tests[0][0] != tests[1][0]:
+            rep.violation(rule, "%s: the two tests do not have the form E(p) %s 0 over one line (points %s / %s)" % (inst, tests[0][0], sorted(pts[0]), sorted(pts[1])),
+                          F.nloc(c), F.qn, norm.render(P, c)[:100], "the two points are not compared against the same line", key=rule + "|shape",
+                          witness="a ridge with a transform fault that is not parallel to an axis")
+            continue
+        p0, p1 = list(own[0])[0], list(own[1])[0]
+        sub = {names[p1][i]: names[p0][i] for i in (0, 1) if i in names.get(p1, {}) and i in names.get(p0, {})}
+        same = sp.expand(E[1].xreplace(sub) - E[0]) == 0
+        problems = []
+        if not same:
+            problems.append("the test of %s is not the test of %s with the point replaced" % (p1, p0))
+        for k_, (e_, p_) in enumerate(((E[0], p0), (E[1], p1))):
+            for s_ in sorted(shared):
+                v = sp.expand(e_.xreplace({names[p_][i]: names[s_][i] for i in (0, 1) if i in names[p_] and i in names[s_]}))
+                if v != 0:
+                    problems.append("E(%s) does not vanish at the line point %s" % (p_, s_))
+            try:
+                if sp.Poly(e_, *[names[p_][i] for i in sorted(names[p_])]).total_degree() != 1:
+                    problems.append("E is not affine in %s" % p_)
+            except Exception:
+                problems.append("E is not a polynomial in %s" % p_)
+        if problems:
+            rep.violation(rule, "%s: %s" % (inst, "; ".join(problems[:3])), F.nloc(c), F.qn, norm.render(P, decls[tests[1][2]["r"]])[:160],
+                          "the side of the transform fault is decided by something other than the sign of (b - a) x (p - a): for a fault that is not "
+                          "axis-parallel the query is assigned to the wrong ridge segment", key=rule + "|form",
+                          witness="the same oceanic plate rotated by 30 degrees: ages beside the transform fault change")
+        else:
+            rep.ok(rule, "%s: both are (b - a) x (p - a) < 0 over the line %s" % (inst, sorted(shared)), F.nloc(c), F.qn)
+    rep.floor(rule, n, 1, "same-side comparisons")
